@@ -35,11 +35,19 @@ def run(tier, seed, replay=None):
              # item bodies that span lines, at several depths and marker kinds
              "/ Term: first line\n  second line\n", "  / Key: value\n    continued\n\n    - nested item\n\nafter\n",
              "- first\n  second\n  - inner a\n    inner b\n+ one\n  two\n", "$ vec(mat(1, 2; 3, 4), cases(a; b,)) $\n", "$ vec(mat(x,, y), #g(1, 2)) + sqrt(binom(a, b)) $\n",
+             # code after a hash in math: method chains as call arguments and as sub-chains (they must not break)
+             "$ mat(#results.filter(r => r.ok).map(r => r.value).sum(), 0; 0, #results.len()) $\n",
+             "$ x = #results.filter(r => r.ok).map(r => r.value).sum() + 1 $\n", "$ sin(#a.bb(c).dd(e).ff(g)) + #a.bb(c).dd(e).ff(g) $\n",
              "#f(g(1, 2), (a, b), (c: 1))\n", "#{ let x = f(a.b.c(1), [t]) }\n", "text\n\n  + a *b*\n    c $x$\n    / t: u\n      v\n"]
     cs = []
     for i, s in enumerate(srcs):
         for (a, b) in krange.gen_ranges(rng, s, 3 if tier == "quick" else 8):
             cs.append(([80, 20, 0][i % 3], [2, 4, 1][i % 3], a, b, s))
+    # the hashed chains again at narrow widths (a chain that does not fit is where break suppression matters)
+    for s in [x for x in srcs if ".filter(r => r.ok)" in x or ".bb(c).dd(e)" in x][:40]:
+        for w in (40, 20):
+            for (a, b) in krange.gen_ranges(rng, s, 3 if tier == "quick" else 8):
+                cs.append((w, 2, a, b, s))
     # regressions of repaired defects run first
     cs = [(80, 2, 3, 16, "$ mat(;,;,11,,) $\n"), (80, 2, 12, 12, "/ a: // c\n\n  \n    b\n"),
           (80, 2, 12, 14, "1. @b[b]$1$\n  \\*\n"), (80, 2, 1, 4, "#(2)w"), (80, 2, 2, 5, "$#(2)w$"),
